@@ -34,7 +34,7 @@ import (
 
 type opSpec struct {
 	Kind  string `json:"kind"`            // get | create | update | acquire (Get, then Create if NotFound else Update) | info (leader.go GetLeaderInfo/GetElectionInfo/Describe on the node)
-	Fault string `json:"fault,omitempty"` // "" | err (engine call fails) | unknown (commit reports an error, applied if its condition holds) | tso (timestamp read fails)
+	Fault string `json:"fault,omitempty"` // "" | err (engine call fails) | unknown (commit answers storage.ErrUncertainResult, applied iff its condition holds) | unknown-lost (same answer, nothing applied) | tso (timestamp read fails)
 }
 
 type candSpec struct {
@@ -158,8 +158,14 @@ func newCand(i int, spec candSpec, kv storage.KvStorage, prefix string, sched *l
 			sched.Yield("engine.commit")
 			c.atCommit = false
 		}
+		// unknown outcome, as the engines report it (storage.ErrUncertainResult): the commit is evaluated by the
+		// engine and takes effect iff its condition holds ("unknown"), or is lost altogether ("unknown-lost");
+		// either way the caller only learns that it cannot tell
 		if c.cur != nil && c.cur.Fault == "unknown" {
-			return lib.ErrInjected, true
+			return storage.NewErrUncertainResult(lib.ErrInjected), true
+		}
+		if c.cur != nil && c.cur.Fault == "unknown-lost" {
+			return storage.NewErrUncertainResult(lib.ErrInjected), false
 		}
 		return nil, false
 	}
@@ -193,7 +199,7 @@ func envName(kind, fault string) string {
 		return "GOk"
 	}
 	switch fault {
-	case "err":
+	case "err", "unknown-lost":
 		return "CErr"
 	case "unknown":
 		return "CUnknown"
@@ -733,6 +739,16 @@ func main() {
 			cfg.CommitPark = true
 			explore(cfg)
 		}
+		// unknown-outcome commits that did NOT land because a competitor won: the lock object may only report them
+		// as errors, never as an acquisition
+		for _, f := range []string{"unknown", "unknown-lost"} {
+			explore(caseSpec{Engine: eng, Init: "held", Kind: "corpus-lost-update-" + f, Cands: []candSpec{
+				{ID: "A", Prog: []opSpec{{Kind: "get"}, {Kind: "update", Fault: f}, {Kind: "get"}, {Kind: "update"}}},
+				{ID: "B", Prog: prog("get", "update")}}})
+			explore(caseSpec{Engine: eng, Init: "absent", Kind: "corpus-lost-create-" + f, Cands: []candSpec{
+				{ID: "A", Prog: []opSpec{{Kind: "get"}, {Kind: "create", Fault: f}, {Kind: "get"}}},
+				{ID: "B", Prog: prog("get", "create")}}})
+		}
 		explore(mk(eng, "absent", "corpus-renew-twice", prog("create", "update", "update", "get", "update")))
 		explore(mk(eng, "held", "corpus-same-observed", prog("get", "update"), prog("get", "update")))
 		explore(mk(eng, "absent", "corpus-create-race", prog("get", "create"), prog("get", "create")))
@@ -779,7 +795,7 @@ func main() {
 
 		// --- random beyond: 2..3 candidates, longer programs, engine faults, random schedules ---
 		kinds := []string{"get", "get", "update", "update", "create", "acquire", "acquire", "info"}
-		faults := []string{"", "", "", "", "", "err", "unknown", "tso"}
+		faults := []string{"", "", "", "", "", "err", "unknown", "unknown-lost", "tso"}
 		for i := 0; i < nRandom; i++ {
 			n := 2 + rnd.Intn(2)
 			cs := caseSpec{Engine: eng, Kind: "random", Init: []string{"absent", "held", "released", "garbage"}[rnd.Intn(4)], Mutant: mutant}
@@ -790,7 +806,7 @@ func main() {
 					p[j] = opSpec{Kind: kinds[rnd.Intn(len(kinds))]}
 					if p[j].Kind != "acquire" && p[j].Kind != "info" {
 						p[j].Fault = faults[rnd.Intn(len(faults))]
-						if p[j].Kind == "get" && p[j].Fault == "unknown" {
+						if p[j].Kind == "get" && strings.HasPrefix(p[j].Fault, "unknown") {
 							p[j].Fault = ""
 						}
 					}
